@@ -17,12 +17,9 @@ from loki.tools.util import CaseInsensitiveDict, CaseInsensitiveDefaultDict
 from ..core import Prop, Case, Failure
 from ..sexpr import A, dumps
 
-K_DELPOP = 'symtab-del-pop-spelling'
-K_SETDEFAULT = 'symtab-setdefault-returns-none'
-K_CLONE = 'symtab-clone-drops-empty-parent'
-K_REPARENT = 'scope-reset-parent-none-stale'
-K_CID = 'cidict-del-pop-spelling'
-K_CIDD = 'cidefaultdict-raw-key'
+# the six classes of the snapshot (symtab-del-pop-spelling, symtab-setdefault-returns-none, symtab-clone-drops-empty-parent,
+# scope-reset-parent-none-stale, cidict-del-pop-spelling, cidefaultdict-raw-key) are repaired by `fix:` commits in /repo
+# (known_findings.json, status fixed): the classifier no longer knows any class, every deviation is a violation.
 
 UNIT, NONE, KEYERR, VALERR, REC, BAD = A('unit'), A('none'), A('keyerror'), A('valueerror'), A('recursion'), A('bad')
 
@@ -447,8 +444,9 @@ def spellings(base):
 
 
 def gen_symtab(rng, nops, clean):
-    """one random history; ``clean`` histories avoid the known-finding classes (so that the whole
-    history is compared against the reference), the others use every spelling everywhere"""
+    """one random history; ``clean`` histories delete by stored key and avoid `clone()` under an empty parent and
+    `_reset_parent(None)` (the classes that were defective before the fix: commits), the others use every spelling
+    everywhere and exercise exactly those paths"""
     ref = Ref()
     ops = []
 
@@ -595,46 +593,42 @@ class C12(Prop):
     model_modules = ['LokiModel.C12.Model']
     props_module = 'LokiModel.Props.C12'
     driver = 'Drivers/C12.lean'
-    theorems = ['C12_inv_init', 'C12_step_state', 'C12_step_out', 'C12_run_refines', 'C12_full_false', 'C12_partial',
-                'C12_del_agrees_with_contains', 'C12_known_del_deviates', 'C12_mutate_independent', 'C12_fold_idem',
+    theorems = ['C12_inv_init', 'C12_step', 'C12_run_refines', 'C12_full_holds', 'C12_del_agrees_with_contains',
+                'C12_spelling_irrelevant', 'C12_mutate_independent', 'C12_fold_idem',
                 'C12_no_sharing', 'C12_copies_independent', 'C12_set_stores_copy',
-                'C12_dict_step', 'C12_dict_run', 'C12_dict_full_false_ordered', 'C12_dict_full_false_dflt',
-                'C12_dict_partial', 'C12_dict_ordered_nodel']
+                'C12_dict_step', 'C12_dict_run', 'C12_dict_full_holds']
+    findings_module = 'LokiModel.Findings.C12'
     design_ref = 'DESIGN.md 4.B C12'
     level = 'proof'
     level_text = (
-        'Lean theorems, all unbounded (every state satisfying the invariant / every history, any number of scopes, any names): '
-        'C12_step_state + C12_step_out — one step of the model of SymbolTable/Scope (21 operations: set, setdefault, update, get, '
-        '[], lookup recursive/non-recursive, in, del, pop, pop(k,None), clone, parent setter, Scope(), declare, Scope.update, '
-        'get_type, get_symbol_scope, _reset_parent, plus creating/mutating SymbolAttributes handles) commutes with the abstraction '
-        'to "scope -> folded name -> value" and returns the output of that mapping (innermost-declaration look-up), and keeps the '
-        'invariant (stored keys are folded and unique; scope parent = table parent; scope parents are scopes); C12_run_refines / '
-        'C12_partial lift this to all histories by induction.  The FULL statement C12_full is FALSE for the unchanged code '
-        '(C12_full_false, witness t["abc"]=a; del t["ABC"]); C12_partial holds under the hypothesis KnownFree = the history never '
-        'enters the decidable classes symtab-del-pop-spelling, symtab-clone-drops-empty-parent, scope-reset-parent-none-stale, and '
-        'compares outputs except the return value of setdefault (symtab-setdefault-returns-none); C12_known_del_deviates shows the '
-        'del class is tight.  Dictionaries: C12_dict_step / C12_dict_run / C12_dict_partial — CaseInsensitiveDict and '
-        'CaseInsensitiveDefaultDict refine a mapping keyed by the lower-cased key for all histories outside cidict-del-pop-spelling / '
-        'cidefaultdict-raw-key; C12_dict_ordered_nodel needs no hypothesis for set/get/[]/in/setdefault/update on the ordered one; '
-        'the full statements are false (C12_dict_full_false_*).  "Returned attributes are independent copies": the state machine '
-        'above holds values by value (C12_mutate_independent is by construction); object identity is proved on a second, smaller '
-        'model (one table, heap of objects, where set/setdefault/lookup clone and pop hands out the stored object): C12_no_sharing '
-        '— after ANY history no object is shared between two entries or between table and caller; C12_copies_independent — '
-        'mutating any object the caller holds never changes the table; C12_set_stores_copy.  That second model is tied to the code '
-        'by reading where clone() is called plus the identity checks of the correspondence run (after every op every stored and '
-        'returned object is compared by `is` against all table entries and handles; handles are mutated between ops), not by a '
-        'separate driver.')
-    level_note = ('Model hand-written from symbol_table.py / scope.py / util.py; tied to the code by running every generated history on '
-                  'the real objects and on the Lean driver and diffing every output and the final dump (keys in insertion order, '
-                  'values, table parent, scope parent, handle values).  str.lower is the generated ASCII table; the partition '
-                  'character is read from the source with ast.  Parents are weak references in the code: the harness keeps every '
-                  'object alive; garbage collection of parents is not modelled.  case_sensitive=True tables, pickling, '
+        'Lean theorems, all unbounded and at FULL strength since the six fix: commits (no Known hypothesis left): C12_step — for every '
+        'state satisfying the invariant and every one of the 21 operations of the model of SymbolTable/Scope (set, setdefault, update, '
+        'get, [], lookup recursive/non-recursive, in, del, pop, pop(k,None), clone, parent setter, Scope(), declare, Scope.update, '
+        'get_type, get_symbol_scope, _reset_parent, creating/mutating SymbolAttributes handles) the abstraction to "scope -> folded '
+        'name -> value" commutes with the step, the output is the output of that mapping (innermost-declaration look-up) and the '
+        'invariant (stored keys folded and unique; scope parent = table parent; scope parents are scopes) is kept; C12_run_refines / '
+        'C12_full_holds lift this to ALL histories from the empty state by induction, every output included; '
+        'C12_del_agrees_with_contains and C12_spelling_irrelevant state that membership, look-up, deletion agree for any spelling.  '
+        'Dictionaries: C12_dict_step / C12_dict_run / C12_dict_full_holds — CaseInsensitiveDict and CaseInsensitiveDefaultDict refine '
+        'a mapping keyed by the lower-cased key for all histories, no hypothesis.  "Returned attributes are independent copies": the '
+        'state machine holds values by value (C12_mutate_independent is by construction); object identity is proved on a second, '
+        'smaller model (one table, heap of objects, where set/setdefault/lookup clone and pop hands out the stored object): '
+        'C12_no_sharing — after ANY history no object is shared between two entries or between table and caller; '
+        'C12_copies_independent — mutating any object the caller holds never changes the table; C12_set_stores_copy.  That second '
+        'model is tied to the code by reading where clone() is called plus the identity checks of the correspondence run (after every '
+        'op every stored and returned object is compared by `is` against all table entries and handles; handles are mutated between '
+        'ops), not by a separate driver.  The behaviour before the fixes is kept as regression statements in LokiModel/Findings/C12.lean.')
+    level_note = ('Model hand-written from symbol_table.py / scope.py / util.py (state after the fix: commits); tied to the code by running '
+                  'every generated history on the real objects and on the Lean driver and diffing every output and the final dump (keys '
+                  'in insertion order, values, table parent, scope parent, handle values).  str.lower is the generated ASCII table; the '
+                  'partition character is read from the source with ast.  Parents are weak references in the code: the harness keeps '
+                  'every object alive; garbage collection of parents is not modelled.  case_sensitive=True tables, pickling, '
                   'Scope.clone (TypeError on a plain Scope: symbol_attrs is init=False), non-string keys are out of the model.')
     technique = 'Lean 4 refinement theorems (model state machine -> abstract mapping spec) + correspondence with the real objects'
     rule = ('random histories of 8-40 ops over a chain of 1-4 nested Scope objects plus bare/cloned SymbolTables, names drawn from 4 base '
-            'names x 7 spellings (lower, UPPER, Capitalised, mIXED, with (1) / (i,J) / (:) suffixes); 2/3 of the histories avoid the '
-            'known classes so that the whole history is comparable with the reference, 1/3 use any spelling anywhere; dictionaries: '
-            'histories of 4-40 ops over 5 spellings of 1-3 keys; distinct by request line')
+            'names x 7 spellings (lower, UPPER, Capitalised, mIXED, with (1) / (i,J) / (:) suffixes); 2/3 of the histories delete by '
+            'stored key, 1/3 use any spelling anywhere (the former known classes); dictionaries: histories of 4-40 ops over 5 spellings '
+            'of 1-3 keys; distinct by request line')
     trusted_base = ['harness/props/c12.py Real/RealDict (drives the real objects, canonicalises outputs)',
                     'harness/props/c12.py Ref/RefDict reference mappings (direct oracle)', 'Lean driver evaluation of model definitions']
     assumptions = ['ASCII names (str.lower modelled on ASCII)', 'all tables/scopes stay alive (weak parent references never die)',
@@ -649,14 +643,14 @@ class C12(Prop):
         return {'LokiModel/Generated/C12Tables.lean': lean_table()}
 
     def gen(self, rng, tier):
-        n = {'quick': 600, 'thorough': 15000, 'search': 3000}.get(tier, 600)
+        n = {'quick': 400, 'thorough': 15000, 'search': 3000}.get(tier, 400)
         for j in range(n):
-            clean = j % 3 != 0
+            clean = j % 2 == 0
             req = gen_symtab(rng, rng.randint(8, 40), clean)
             yield Case(req, stream='symtab-clean' if clean else 'symtab-any')
         for kind in ('cid', 'cidd'):
             for j in range(n // 3):
-                clean = j % 3 != 0
+                clean = j % 2 == 0
                 yield Case(gen_dict(rng, kind, rng.randint(4, 40), clean), stream=kind + ('-clean' if clean else '-any'))
 
     # ---- real code
@@ -677,103 +671,36 @@ class C12(Prop):
 
     def oracle_symtab(self, ops):
         real, ref = Real(), Ref()
-        fails = []
         for n, op in enumerate(ops):
-            pre = ref.state()
             exp = ref.step(op)
             got = real.step(op)
             real.check_alias()
             if real.alias:
-                fails.append(Failure(f'op {n} {dumps(op)}: {real.alias} (returned/stored attributes must be independent copies)'))
-                break
-            if got == exp and real.state() == ref.state():
-                continue
-            cls = classify_symtab(op, pre, got, real.state(), ref.state())
-            what = (f'op {n} {dumps(op)}: real gives {dumps(got)}, a scoped case-insensitive mapping gives {dumps(exp)}'
-                    if got != exp else
-                    f'op {n} {dumps(op)}: state after the op differs from the reference mapping: real '
-                    f'{real.state()[:2]} reference {ref.state()[:2]}')
-            fails.append(Failure(what, cls))
-            if cls is None or cls == K_REPARENT:
-                break       # scope parent and table parent now differ: no single-parent reference describes the objects
-            # resynchronise the reference with the real objects and go on
-            ref.maps, ref.parent, ref.scoped, ref.hs = (list(x) for x in real.state())
-        return dedupe(fails)
+                return [Failure(f'op {n} {dumps(op)}: {real.alias} (returned/stored attributes must be independent copies)')]
+            if got != exp:
+                return [Failure(f'op {n} {dumps(op)}: real gives {dumps(got)}, a scoped case-insensitive mapping gives {dumps(exp)}')]
+            if real.state() != ref.state():
+                return [Failure(f'op {n} {dumps(op)}: state after the op differs from the reference mapping: real '
+                                f'{real.state()[:2]} reference {ref.state()[:2]}')]
+            if [None if sc is None else real.sidx(sc.parent) for sc in real.scopes] != \
+                    [p if s else None for p, s in zip(ref.parent, ref.scoped)]:
+                return [Failure(f'op {n} {dumps(op)}: scope parents {[None if sc is None else real.sidx(sc.parent) for sc in real.scopes]} '
+                                f'differ from the table parents {ref.parent} of the scopes')]
+        return []
 
     def oracle_dict(self, kind, ops):
         real, ref = RealDict(kind), RefDict(kind)
-        fails = []
         for n, op in enumerate(ops):
-            pre = dict(ref.m)
             exp = ref.step(op)
             got = real.step(op)
             now = {k: v for k, v in real.d.items()}
-            if got == exp and now == ref.m:
-                continue
-            cls = classify_dict(kind, op, pre, got, now)
-            fails.append(Failure(f'{kind} op {n} {dumps(op)}: real gives {dumps(got)} / {now}, a mapping keyed by the '
-                                 f'lower-cased key gives {dumps(exp)} / {ref.m}', cls))
-            if cls is None:
-                break
-            if kind == 'cidd' and any(k != k.lower() for k in now):
-                break       # raw keys are now stored: nothing after this point is comparable with the reference
-            ref.m = dict(now)
-        return dedupe(fails)
+            if got != exp or now != ref.m:
+                return [Failure(f'{kind} op {n} {dumps(op)}: real gives {dumps(got)} / {now}, a mapping keyed by the '
+                                f'lower-cased key gives {dumps(exp)} / {ref.m}')]
+        return []
 
     def classes(self):
-        return [K_DELPOP, K_SETDEFAULT, K_CLONE, K_REPARENT, K_CID, K_CIDD]
-
-
-def dedupe(fails):
-    seen, out = set(), []
-    for f in fails:
-        if f.cls not in seen:
-            seen.add(f.cls)
-            out.append(f)
-    return out
-
-
-def classify_symtab(op, pre, got, real_state, ref_state):
-    """the known-finding class an oracle failure falls in: the op and pre-state satisfy the class predicate (Lean:
-    `KnownSt` / `KnownOut`) AND the real behaviour is exactly the recorded defect; otherwise None"""
-    maps, parent, _, _ = pre
-    o, a = str(op[0]), op[1:]
-    if o in ('del', 'pop', 'popd'):
-        i, k = int(a[0]), a[1]
-        if k != cf(k) and cf(k) in maps[i] and got == (NONE if o == 'popd' else KEYERR) and real_state[0] == maps \
-                and real_state[1] == parent:
-            return K_DELPOP
-    if o == 'setdefault' and got == NONE and real_state == ref_state:
-        return K_SETDEFAULT
-    if o == 'clone' and str(a[1]) == 'inherit':
-        p = parent[int(a[0])]
-        if p is not None and not maps[p] and got == UNIT and real_state[0] == ref_state[0] \
-                and real_state[1] == ref_state[1][:-1] + [None]:
-            return K_CLONE
-    if o == 'reparent' and str(a[1]) == 'none' and parent[int(a[0])] is not None and got == UNIT \
-            and real_state[0] == maps and real_state[1] == parent:
-        return K_REPARENT
-    return None
-
-
-def classify_dict(kind, op, pre, got, now):
-    o, a = str(op[0]), op[1:]
-    if kind == 'cid':
-        if o in ('del', 'pop', 'popd') and a[0] != a[0].lower() and a[0].lower() in pre \
-                and got == (NONE if o == 'popd' else KEYERR) and now == pre:
-            return K_CID
-        return None
-    if o in ('del', 'pop', 'popd') and a[0] != a[0].lower() and got == (NONE if o == 'popd' else KEYERR) and now == pre:
-        return K_CIDD
-    if o == 'setdefault' and a[0] != a[0].lower() and got == val(int(a[1])) and now == dict(pre, **{a[0]: int(a[1])}):
-        return K_CIDD
-    if o == 'update' and any(k != k.lower() for k, _ in a[1:]):
-        exp = dict(pre)
-        for k, v in a[1:]:
-            exp[k] = int(v)
-        if got == UNIT and now == exp:
-            return K_CIDD
-    return None
+        return []
 
 
 PROP = C12()
